@@ -129,9 +129,23 @@ func isSchemeChar(c byte, first bool) bool {
 	return c >= '0' && c <= '9' || c == '+' || c == '-' || c == '.'
 }
 
+// TolerantDoubleSlash: an href or Destination without a scheme that starts
+// with "//" is, by RFC 3986, a network-path reference (authority follows).
+// go-webdav echoes the request path as the href, so a request for "//a"
+// yields the href "//a"; the properties speak of hrefs "sent back as a request
+// path", where "//a" is a path. With this switch on (the default) such a
+// reference is read as a path.
+var TolerantDoubleSlash = true
+
 // ParseRef parses a Destination header value or an href: absolute-URI with an
 // authority, a network-path reference, or an absolute path (RFC 3986).
-func ParseRef(v string) Ref {
+func ParseRef(v string) Ref { return parseRef(v, false) }
+
+// ParseHref reads an href of a multi-status the way it reads when "sent back
+// as a request path": a scheme-less value starting with "//" is a path.
+func ParseHref(v string) Ref { return parseRef(v, TolerantDoubleSlash) }
+
+func parseRef(v string, tolerant bool) Ref {
 	r := Ref{}
 	if i := strings.IndexByte(v, '#'); i >= 0 {
 		v = v[:i]
@@ -156,7 +170,9 @@ func ParseRef(v string) Ref {
 			return r
 		}
 	}
-	if strings.HasPrefix(rest, "//") {
+	if strings.HasPrefix(rest, "//") && rest == v && tolerant {
+		// no scheme: read it the way a server reads a request-target, as a path
+	} else if strings.HasPrefix(rest, "//") {
 		rest = rest[2:]
 		j := strings.IndexByte(rest, '/')
 		if j < 0 {
